@@ -94,7 +94,7 @@ _p("C11", probes_quick=["store_c09"], probes_thorough=["track_c11"],
    technique="Verus postconditions + loop invariant on verbatim extract; replay probe enumerates fault positions on the real code",
    assumptions=V,
    not_covered=["TrackStore::merge_owned / merge_external atomicity (worker thread): bounded probe only"])
-_p("C12", probes_quick=["visual_voting", "tracker_kinds"],
+_p("C12", probes_quick=["visual_voting", "tracker_kinds", "distance_c16"],
    level_text=PROOF_TEXT + "Decides the per-pair clauses of C12 for all option combinations: feature usable iff all three thresholds at-or-above; appearance distance only for long-enough tracks and within threshold; metric() composes (positional, appearance) truthfully; voting type recorded/merged/reported truthfully.",
    level_note="NOT covered: vote counting, greatest weight wins, loser never gets the contested track, positional fallback among remaining tracks (BestFitVoting / VisualVoting::winners: HashMap + closures + Hungarian).",
    technique="Kani proof harnesses with recording stubs on the real VisualMetric methods",
